@@ -168,6 +168,16 @@ def run_dtier(pid, cfg, tier, seed, out, ev):
                 else:
                     out.undecided.append("%s: refuted but never part of the discharged baseline" % name)
         per.append(d)
+    # exploration guard: on byte-identical sources the number of explored paths can only grow (an inconclusive
+    # feasibility check keeps a branch); fewer paths than when the baseline was recorded means lost coverage
+    cur_sources = {k: v for r in reports for k, v in r.get("sources", {}).items()}
+    base_sources = baseline.get("sources") or {}
+    if base_sources and all(cur_sources.get(k) == v for k, v in base_sources.items()):
+        for r in reports:
+            want = (baseline.get("paths") or {}).get(r["qualname"])
+            if want is not None and r["status"] == "ok" and r["paths"] < want:
+                out.errors.append("exploration guard: %s explored %d paths, %d when the baseline was recorded on the same sources"
+                                  % (r["qualname"], r["paths"], want))
     # obligations of the baseline that were not generated at all (function missing / out of subset)
     missing = sorted(b for b in base_clauses if b not in clauses)
     for b in missing:
@@ -181,7 +191,14 @@ def run_dtier(pid, cfg, tier, seed, out, ev):
         "wall_s": round(time.time() - t0, 2),
         "sources": {k: v for r in reports for k, v in r.get("sources", {}).items()},
     }
-    ev["assumptions"].extend(sorted(assumptions))
+    # a callee contract used at a call site is an assumption only if that callee is not itself verified in this run
+    proved_here = {r["qualname"] for r in reports if r["status"] == "ok" and r["kind"] == "function"}
+    kept = []
+    for a in sorted(assumptions):
+        if a.startswith("assumed contract of ") and a[len("assumed contract of "):].strip() in proved_here:
+            continue
+        kept.append(a)
+    ev["assumptions"].extend(kept)
     if dropped:
         ev["assumptions"].append("extraction drops (no-ops): " + "; ".join(sorted(dropped)))
     if n_obl + len(known_list) == 0 and all(r["status"] == "ok" for r in reports):
@@ -407,5 +424,7 @@ def write_baseline(pid, seed=0):
     os.makedirs(BASELINE_DIR, exist_ok=True)
     with open(os.path.join(BASELINE_DIR, pid + ".json"), "w") as f:
         json.dump({"property": pid, "discharged": sorted(names),
-                   "not_discharged": sorted(p["obligation"] for p in d["per_obligation"] if p["status"] != "discharged")}, f, indent=1)
+                   "not_discharged": sorted(p["obligation"] for p in d["per_obligation"] if p["status"] != "discharged"),
+                   "paths": {f_["function"]: f_["paths"] for f_ in d["functions_under_contract"]},
+                   "sources": d.get("sources", {})}, f, indent=1)
     print("baseline %s: %d discharged clauses, undecided: %s" % (pid, len(names), out.undecided))
